@@ -6,13 +6,29 @@ namespace Memento.Version
 /-- the functions of the closure of `f`: `f` itself and every memento / in-package plain function reached -/
 def FnTarget (P : Prog) (f g : Name) : Prop := g = f ∨ (ReachN P f g ∧ expands P g = true)
 
-/-- the program class of C01: `f` is automatically versioned and everything named in the closure is an
-    automatically versioned memento function, a plain function of the package, or a variable of a supported type -/
+/-- the program class of C01: `f` is automatically versioned and everything named in the closure is a memento
+    function (automatically or explicitly versioned), a plain function of the package, or a variable of a
+    supported type -/
 structure Tracked (P : Prog) (f : Name) : Prop where
   root : ∃ tok refs, lookup P f = some (.memento none tok refs)
   refs : ∀ p r, FnTarget P f p → RefersTo P p r →
-    (∃ tok refs, lookup P r = some (.memento none tok refs)) ∨
+    (∃ e tok refs, lookup P r = some (.memento e tok refs)) ∨
     (∃ tok refs, lookup P r = some (.plain true tok refs)) ∨ (∃ v, lookup P r = some (.var (some v)))
+
+/-- the user's side of an explicit version: a function that carries the same explicit version string in two
+    editions has the same definition in both (whoever edits an explicitly versioned function changes the string) -/
+def Disciplined (P P' : Prog) : Prop :=
+  ∀ g e tok refs tok' refs', lookup P g = some (.memento (some e) tok refs) →
+    lookup P' g = some (.memento (some e) tok' refs') → tok = tok' ∧ refs = refs'
+
+theorem Disciplined.symm {P P' : Prog} (h : Disciplined P P') : Disciplined P' P := by
+  intro g e tok refs tok' refs' h1 h2
+  obtain ⟨a, b⟩ := h g e tok' refs' tok refs h2 h1
+  exact ⟨a.symm, b.symm⟩
+
+theorem Disciplined.refl (P : Prog) : Disciplined P P := by
+  intro g e tok refs tok' refs' h1 h2
+  rw [h1] at h2; cases h2; exact ⟨rfl, rfl⟩
 
 theorem reachN_last {P : Prog} {f g : Name} (h : ReachN P f g) : ∃ p, FnTarget P f p ∧ RefersTo P p g := by
   cases h with
@@ -27,9 +43,10 @@ theorem fnTarget_step {P : Prog} {f p r : Name} (hp : FnTarget P f p) (href : Re
   · exact ReachN.step hp hep href
 
 theorem fnTarget_cases {P : Prog} {f g : Name} (hT : Tracked P f) (h : FnTarget P f g) :
-    (∃ tok refs, lookup P g = some (.memento none tok refs)) ∨ (∃ tok refs, lookup P g = some (.plain true tok refs)) := by
+    (∃ e tok refs, lookup P g = some (.memento e tok refs)) ∨ (∃ tok refs, lookup P g = some (.plain true tok refs)) := by
   rcases h with rfl | ⟨hr, he⟩
-  · exact Or.inl hT.root
+  · obtain ⟨tok, refs, h⟩ := hT.root
+    exact Or.inl ⟨none, tok, refs, h⟩
   · obtain ⟨p, hp, href⟩ := reachN_last hr
     rcases hT.refs p g hp href with h | h | ⟨v, hv⟩
     · exact Or.inl h
@@ -40,6 +57,7 @@ theorem fnTarget_cases {P : Prog} {f g : Name} (hT : Tracked P f) (h : FnTarget 
 def nodeSer (P : Prog) (x : Node) : Option Ser :=
   match x.kind, lookup P x.target with
   | .mfn, some (.memento none tok refs) => some (.code true x.target tok refs)
+  | .mfn, some (.memento (some e) _ _) => some (.explicit x.target e)
   | .fn, some (.plain _ tok refs) => some (.code false x.target tok refs)
   | .gvar, some (.var (some v)) => some (.value v)
   | _, _ => none
@@ -65,10 +83,12 @@ theorem tracked_node {P : Prog} {f : Name} (H : Ser → List Char) (hT : Tracked
     exact ⟨.code true f tok refs, by simp [nodeSer, rootNode, hl], by simp [ruleHash, rootNode, hl]⟩
   · obtain ⟨k, par, t⟩ := x
     simp only at href hmk
-    rcases hT.refs p t hp href with ⟨tok, refs, hl⟩ | ⟨tok, refs, hl⟩ | ⟨v, hl⟩
+    rcases hT.refs p t hp href with ⟨e, tok, refs, hl⟩ | ⟨tok, refs, hl⟩ | ⟨v, hl⟩
     · have : mkNode P p t = some ⟨.mfn, some p, t⟩ := by simp [mkNode, hl]
       rw [this] at hmk; cases hmk
-      exact ⟨.code true t tok refs, by simp [nodeSer, hl], by simp [ruleHash, hl]⟩
+      cases e with
+      | none => exact ⟨.code true t tok refs, by simp [nodeSer, hl], by simp [ruleHash, hl]⟩
+      | some e => exact ⟨.explicit t e, by simp [nodeSer, hl], by simp [ruleHash, hl]⟩
     · have : mkNode P p t = some ⟨.fn, some p, t⟩ := by simp [mkNode, hl]
       rw [this] at hmk; cases hmk
       exact ⟨.code false t tok refs, by simp [nodeSer, hl], by simp [ruleHash, hl]⟩
@@ -149,6 +169,7 @@ theorem nodeSer_code {P : Prog} {x : Node} {salted : Bool} {g : Name} {tok : Tok
     obtain ⟨h1, h2, h3, h4⟩ := h
     subst h2 h3 h4
     exact ⟨rfl, Or.inl ⟨h1.symm, hk, hl⟩⟩
+  · simp at h
   · rename_i b _ _ hk hl
     simp only [Option.some.injEq, Ser.code.injEq] at h
     obtain ⟨h1, h2, h3, h4⟩ := h
@@ -157,27 +178,56 @@ theorem nodeSer_code {P : Prog} {x : Node} {salted : Bool} {g : Name} {tok : Tok
   · simp at h
   · simp at h
 
+theorem nodeSer_explicit {P : Prog} {x : Node} {g : Name} {e : List Char}
+    (h : nodeSer P x = some (.explicit g e)) :
+    x.target = g ∧ x.kind = .mfn ∧ ∃ tok refs, lookup P g = some (.memento (some e) tok refs) := by
+  unfold nodeSer at h
+  split at h
+  · simp at h
+  · rename_i e' tok refs hk hl
+    simp only [Option.some.injEq, Ser.explicit.injEq] at h
+    obtain ⟨h1, h2⟩ := h
+    subst h1 h2
+    exact ⟨rfl, hk, tok, refs, hl⟩
+  · simp at h
+  · simp at h
+  · simp at h
+
+/-- a rule whose target is a memento function is a memento rule -/
+theorem node_kind_of_memento {P : Prog} {f : Name} {x : Node} (hx : x ∈ rules P id f)
+    (hk : x.kind = .mfn ∨ x.kind = .fn) {e : Option (List Char)} {tok : Tok} {refs : List Name}
+    (hl : lookup P x.target = some (.memento e tok refs)) : x.kind = .mfn := by
+  rcases hk with hk | hk
+  · exact hk
+  · rcases (mem_rules_nodeOK ordOK_id).mp hx with rfl | ⟨p, _, _, hmk⟩
+    · simp [rootNode] at hk
+    · have := mkNode_fn_of hmk hk
+      simp [isPlainPkg, hl] at this
+
 /-- functions of the closure of `P` are functions of the closure of `P'`, with the same definition -/
 theorem fn_agree {H : Ser → List Char} (hinj : Function.Injective H) {P P' : Prog} {f : Name}
-    (hT : Tracked P f) (hT' : Tracked P' f) (hh : hashList H P f = hashList H P' f)
+    (hT : Tracked P f) (hT' : Tracked P' f) (hd : Disciplined P P') (hh : hashList H P f = hashList H P' f)
     {g : Name} (hg : FnTarget P f g) : FnTarget P' f g ∧ lookup P' g = lookup P g := by
   obtain ⟨x, hx, ht, hk⟩ := fnTarget_node hg
-  rcases fnTarget_cases hT hg with ⟨tok, refs, hl⟩ | ⟨tok, refs, hl⟩
-  · have hk' : x.kind = .mfn := by
-      rcases hk with hk | hk
-      · exact hk
-      · rcases (mem_rules_nodeOK ordOK_id).mp hx with rfl | ⟨p, _, _, hmk⟩
-        · simp [rootNode] at hk
-        · have := mkNode_fn_of hmk hk
-          rw [ht] at this
-          simp [isPlainPkg, hl] at this
-    have hs : nodeSer P x = some (.code true g tok refs) := by
-      unfold nodeSer; rw [hk', ht, hl]
-    obtain ⟨x', hx', hs'⟩ := transfer hinj hT hT' hh hx hs
-    obtain ⟨ht', hc⟩ := nodeSer_code hs'
-    rcases hc with ⟨_, hk2, hl2⟩ | ⟨h0, _⟩
-    · exact ⟨ht' ▸ node_fnTarget hx' (Or.inl hk2), hl2.trans hl.symm⟩
-    · cases h0
+  rcases fnTarget_cases hT hg with ⟨e, tok, refs, hl⟩ | ⟨tok, refs, hl⟩
+  · have hk' : x.kind = .mfn := node_kind_of_memento hx hk (ht ▸ hl)
+    cases e with
+    | none =>
+      have hs : nodeSer P x = some (.code true g tok refs) := by
+        unfold nodeSer; rw [hk', ht, hl]
+      obtain ⟨x', hx', hs'⟩ := transfer hinj hT hT' hh hx hs
+      obtain ⟨ht', hc⟩ := nodeSer_code hs'
+      rcases hc with ⟨_, hk2, hl2⟩ | ⟨h0, _⟩
+      · exact ⟨ht' ▸ node_fnTarget hx' (Or.inl hk2), hl2.trans hl.symm⟩
+      · cases h0
+    | some e =>
+      have hs : nodeSer P x = some (.explicit g e) := by
+        unfold nodeSer; rw [hk', ht, hl]
+      obtain ⟨x', hx', hs'⟩ := transfer hinj hT hT' hh hx hs
+      obtain ⟨ht', hk2, tok', refs', hl2⟩ := nodeSer_explicit hs'
+      obtain ⟨e1, e2⟩ := hd g e tok refs tok' refs' hl hl2
+      subst e1 e2
+      exact ⟨ht' ▸ node_fnTarget hx' (Or.inl hk2), hl2.trans hl.symm⟩
   · have hk' : x.kind = .fn := by
       rcases hk with hk | hk
       · rcases (mem_rules_nodeOK ordOK_id).mp hx with rfl | ⟨p, _, _, hmk⟩
@@ -196,23 +246,24 @@ theorem fn_agree {H : Ser → List Char} (hinj : Function.Injective H) {P P' : P
     · cases h0
     · have hft : FnTarget P' f g := ht' ▸ node_fnTarget hx' (Or.inr hk2)
       refine ⟨hft, ?_⟩
-      rcases fnTarget_cases hT' hft with ⟨t3, r3, h3⟩ | ⟨t3, r3, h3⟩
+      rcases fnTarget_cases hT' hft with ⟨e3, t3, r3, h3⟩ | ⟨t3, r3, h3⟩
       · rw [h3] at hl2; cases hl2
       · rw [h3] at hl2; cases hl2; exact h3.trans hl.symm
 
 
-/-- both programs are tracked and give the same digests in key order -/
+/-- both programs are tracked, explicit versions are used with discipline, and the digests in key order are the same -/
 structure Agree (H : Ser → List Char) (P P' : Prog) (f : Name) : Prop where
   inj : Function.Injective H
   t : Tracked P f
   t' : Tracked P' f
+  disc : Disciplined P P'
   hh : hashList H P f = hashList H P' f
 
 theorem Agree.symm {H : Ser → List Char} {P P' : Prog} {f : Name} (h : Agree H P P' f) : Agree H P' P f :=
-  ⟨h.inj, h.t', h.t, h.hh.symm⟩
+  ⟨h.inj, h.t', h.t, h.disc.symm, h.hh.symm⟩
 
 theorem Agree.fn {H : Ser → List Char} {P P' : Prog} {f g : Name} (h : Agree H P P' f) (hg : FnTarget P f g) :
-    FnTarget P' f g ∧ lookup P' g = lookup P g := fn_agree h.inj h.t h.t' h.hh hg
+    FnTarget P' f g ∧ lookup P' g = lookup P g := fn_agree h.inj h.t h.t' h.disc h.hh hg
 
 theorem mkNode_lookup_congr {P P' : Prog} {r : Name} (h : lookup P' r = lookup P r) (p : Name) :
     mkNode P' p r = mkNode P p r := by
@@ -221,14 +272,14 @@ theorem mkNode_lookup_congr {P P' : Prog} {r : Name} (h : lookup P' r = lookup P
 /-- a name referred to from the closure is classified the same way in both programs -/
 theorem Agree.mkNode_eq {H : Ser → List Char} {P P' : Prog} {f p r : Name} (h : Agree H P P' f)
     (hp : FnTarget P f p) (href : RefersTo P p r) : mkNode P' p r = mkNode P p r := by
-  rcases h.t.refs p r hp href with ⟨tok, refs, hl⟩ | ⟨tok, refs, hl⟩ | ⟨v, hl⟩
+  rcases h.t.refs p r hp href with ⟨e, tok, refs, hl⟩ | ⟨tok, refs, hl⟩ | ⟨v, hl⟩
   · exact mkNode_lookup_congr (h.fn (fnTarget_step hp href (by simp [expands, hl]))).2 p
   · exact mkNode_lookup_congr (h.fn (fnTarget_step hp href (by simp [expands, hl]))).2 p
   · obtain ⟨hp', hlp⟩ := h.fn hp
     have href' : RefersTo P' p r := by
       obtain ⟨d, hd, hr⟩ := href
       exact ⟨d, hlp.trans hd, hr⟩
-    rcases h.t'.refs p r hp' href' with ⟨tok, refs, hl'⟩ | ⟨tok, refs, hl'⟩ | ⟨v', hl'⟩
+    rcases h.t'.refs p r hp' href' with ⟨e', tok, refs, hl'⟩ | ⟨tok, refs, hl'⟩ | ⟨v', hl'⟩
     · have := (h.symm.fn (fnTarget_step hp' href' (by simp [expands, hl']))).2
       rw [hl, hl'] at this; cases this
     · have := (h.symm.fn (fnTarget_step hp' href' (by simp [expands, hl']))).2
@@ -282,7 +333,7 @@ theorem Agree.ruleHash_eq {H : Ser → List Char} {P P' : Prog} {f : Name} (h : 
 /-- **closures agree**: every name of the closure is bound to the same definition in both programs -/
 theorem Agree.lookup_eq {H : Ser → List Char} {P P' : Prog} {f p r : Name} (h : Agree H P P' f)
     (hp : FnTarget P f p) (href : RefersTo P p r) : lookup P' r = lookup P r := by
-  rcases h.t.refs p r hp href with ⟨tok, refs, hl⟩ | ⟨tok, refs, hl⟩ | ⟨v, hl⟩
+  rcases h.t.refs p r hp href with ⟨e0, tok, refs, hl⟩ | ⟨tok, refs, hl⟩ | ⟨v, hl⟩
   · exact (h.fn (fnTarget_step hp href (by simp [expands, hl]))).2
   · exact (h.fn (fnTarget_step hp href (by simp [expands, hl]))).2
   · have hx : (⟨.gvar, some p, r⟩ : Node) ∈ rules P id f :=
@@ -340,7 +391,7 @@ theorem inClos_fn {P : Prog} {f n : Name} (hT : Tracked P f) (hn : InClos P f n)
   rcases hn with hn | ⟨p, hp, href⟩
   · exact hn
   · obtain ⟨e, tok, refs, hl⟩ := he
-    rcases hT.refs p n hp href with ⟨t2, r2, h2⟩ | ⟨t2, r2, h2⟩ | ⟨v, h2⟩
+    rcases hT.refs p n hp href with ⟨e2, t2, r2, h2⟩ | ⟨t2, r2, h2⟩ | ⟨v, h2⟩
     · exact fnTarget_step hp href (by simp [expands, h2])
     · exact fnTarget_step hp href (by simp [expands, h2])
     · rcases hl with hl | ⟨b, hl⟩ <;> (rw [h2] at hl; cases hl)
